@@ -255,12 +255,32 @@ def _bounded_case(tag, poles, eps, cf):
     return {"id": f"b-{tag}-eps{eps[0]}_{eps[1]}-cf{cf[0]}_{cf[1]}", "kind": "bounded", "poles": poles, "eps": list(eps), "cf": list(cf), "seed": 1}
 
 
+def _quick_media(L, Dr):
+    """(tag, poles, [(cf, eps), ...]).  The multi-pole media sit on BOTH sides of the coupled bound in places where only the
+    SUM over the poles decides (each pole alone - or the mean load - would be inside)."""
+    C99, C9, C5, E1, E2 = R(99, 100), R(9, 10), R(1, 2), R(1), R(2)
+    dru34 = [Dr(R(3, 4), R(1, 100)), Dr(R(3, 4), R(1, 50))]                                    # loads 9/64 + 9/64
+    mix3 = [L(R(1, 2), R(1, 100), R(2)), Dr(R(1, 2), R(1, 100)), Dr(R(1, 2), R(1, 10))]        # 2/15 + 1/16 + 1/16
+    dru12 = [Dr(R(1, 2), R(1, 100)), Dr(R(1, 2), R(1, 50))]                                    # 1/16 + 1/16
+    mild3 = [L(R(3, 10), R(1, 100), R(1)), Dr(R(1, 2), R(1, 100)), Dr(R(3, 10), R(1, 10))]     # 9/391 + 1/16 + 9/400
+    return [("vac", [], [(C99, E1)]),
+            ("lorMild", [L(R(3, 10), R(1, 100), R(2))], [(C99, E1), (C99, E2)]),
+            ("lorWeak", [L(R(1, 10), R(1, 100), R(1))], [(C99, E1)]),
+            ("druHalf", [Dr(R(1, 2), R(1, 100))], [(C99, E1), (C99, E2), (C9, E1), (C5, E1)]),
+            ("druWeak", [Dr(R(1, 10), R(1, 10))], [(C99, E1)]),
+            ("lorStrong", [L(R(1), R(0), R(2))], [(C99, E1), (C9, E1), (C5, E1)]),
+            ("two", [L(R(1, 10), R(1, 100), R(1)), Dr(R(1, 10), R(1, 10))], [(C99, E1)]),
+            ("twoDru34", dru34, [(C9, E1), (C5, E1)]),          # outside at 0.9 (0.81 > 1 - 9/32), inside at 0.5
+            ("mix3", mix3, [(C9, E1), (C99, E2)]),              # outside at 0.9 (0.81 > 1 - 31/120), inside for eps 2
+            ("twoDru12", dru12, [(C9, E1)]),                    # inside at 0.9 (0.81 <= 1 - 1/8)
+            ("mild3", mild3, [(C9, E1)])]                       # inside at 0.9
+
+
 def _media(quick, rng):
     L = lambda w, g, de: _pole("lorentz", (w, g, de))  # noqa: E731
     Dr = lambda wp, g: _pole("drude", (wp, g))  # noqa: E731
     if quick:
-        return [("vac", []), ("lorMild", [L(R(3, 10), R(1, 100), R(2))]), ("lorWeak", [L(R(1, 10), R(1, 100), R(1))]), ("druHalf", [Dr(R(1, 2), R(1, 100))]),
-                ("druWeak", [Dr(R(1, 10), R(1, 10))]), ("lorStrong", [L(R(1), R(0), R(2))]), ("two", [L(R(1, 10), R(1, 100), R(1)), Dr(R(1, 10), R(1, 10))])]
+        return _quick_media(L, Dr)
     out = [("vac", [])]
     for w in (R(1, 10), R(3, 10), R(1), R(3, 2)):
         for g in (R(0), R(1, 100), R(1, 2)):
@@ -272,7 +292,11 @@ def _media(quick, rng):
     for k in range(12):
         out.append((f"mix{k}", [L(rng.choice([R(1, 5), R(1, 2), R(1)]), rng.choice([R(0), R(1, 20)]), rng.choice([R(1, 2), R(3)])),
                                 Dr(rng.choice([R(1, 5), R(1, 2)]), rng.choice([R(1, 100), R(1, 4)]))]))
-    return out
+    for k in range(16):      # two and three poles of similar strength: the SUM of the loads decides
+        n = 2 + k % 2
+        out.append((f"multi{k}", [Dr(rng.choice([R(1, 2), R(3, 4), R(1)]), rng.choice([R(1, 100), R(1, 20)])) if rng.random() < 0.5
+                                  else L(rng.choice([R(1, 2), R(1)]), rng.choice([R(0), R(1, 100)]), rng.choice([R(1, 2), R(1), R(2)])) for _ in range(n)]))
+    return [(t, p, None) for t, p in out] + [(t + "-q", p, None) for t, p, _ in _quick_media(L, Dr)[7:]]
 
 
 def _observe_bounded(case):
@@ -347,14 +371,11 @@ def _exact_cases(ctx, rng):
 def _bounded_cases(ctx, rng):
     cfs = [R(99, 100), R(9, 10), R(1, 2)]
     epss = [R(1), R(2)] if ctx.quick else [R(1), R(2), R(9, 4)]
-    for tag, poles in _media(ctx.quick, rng):
-        for cf in cfs:
-            for eps in epss:
-                if ctx.quick and not ((cf == R(99, 100) and (eps == R(1) or tag in ("lorMild", "druHalf"))) or (tag in ("lorStrong", "druHalf") and eps == R(1))):
-                    continue
-                c = _bounded_case(tag, poles, eps, cf)
-                if c is not None:
-                    yield c
+    for tag, poles, combos in _media(ctx.quick, rng):
+        for cf, eps in (combos if combos is not None else [(cf, eps) for cf in cfs for eps in epss]):
+            c = _bounded_case(tag, poles, eps, cf)
+            if c is not None:
+                yield c
 
 
 def run(ctx):
